@@ -3,6 +3,7 @@ Each is a structural necessary condition (a violation breaks behaviour for some 
 import ast
 
 from .. import astutil as A
+from .. import cfgq as Q
 from . import common as K
 
 MUTATORS = {"append", "extend", "insert", "add", "update", "setdefault", "pop", "popitem", "remove", "discard", "clear", "sort",
@@ -170,3 +171,87 @@ def no_cached_descriptor(ctx, rep, rule, class_quals):
                "%s stores `%s`: after close() the cached number outlives the file object - later I/O no longer raises EOFError but "
                "reads/writes/polls whichever file has since been given that descriptor number" % (bad[0][1].name, A.norm(bad[0][0])[:60]),
                ctx.loc(bad[0][0]) if bad else ctx.loc(c.node), kind="site")
+
+
+def lock_state(ctx, func, lock_field, raises="default"):
+    """forward dataflow over func's CFG for the blocking lock self.<lock_field>: returns (g, must_in, may_in) with, per node id,
+    whether the lock is held on EVERY / on SOME path reaching the node. Acquisition forms: `with self.L:` (enter/exit nodes) and
+    an unconditional statement `self.L.acquire()`; release: leaving the with, `self.L.release()`. An exception edge out of the
+    acquiring node itself carries the state before it (the acquisition did not happen)."""
+    g = ctx.cfg(func, raises=raises)
+
+    def effect(n):
+        if n.ast is None:
+            return None
+        if n.kind == "with_enter" and K.self_attr(n.ast, lock_field):
+            return True
+        if n.kind == "with_exit" and K.self_attr(n.ast, lock_field):
+            return False
+        if n.kind == "stmt" and isinstance(n.ast, ast.Expr) and isinstance(n.ast.value, ast.Call):
+            c = n.ast.value
+            if isinstance(c.func, ast.Attribute) and K.self_attr(c.func.value, lock_field):
+                if c.func.attr == "acquire" and not c.args and not c.keywords:
+                    return True
+                if c.func.attr == "release":
+                    return False
+        return None
+    must = {n.id: None for n in g.live}     # None = unreached (top)
+    may = {n.id: False for n in g.live}
+    must[g.entry.id] = False
+    work = [g.entry]
+    while work:
+        n = work.pop()
+        eff = effect(n)
+        for t, l in n.succ:
+            if t.id not in must:
+                continue
+            o_must = must[n.id] if eff is None or (l == "exc" and eff is True) else eff
+            o_may = may[n.id] if eff is None or (l == "exc" and eff is True) else eff
+            nm = o_must if must[t.id] is None else (must[t.id] and o_must)
+            ny = may[t.id] or bool(o_may)
+            if nm != must[t.id] or ny != may[t.id]:
+                must[t.id], may[t.id] = nm, ny
+                work.append(t)
+    return g, must, may, effect
+
+
+def lock_discipline(ctx, rep, rule, class_qual, lock_field, table_field, skip=("__init__", "__repr__")):
+    """every access to self.<table_field> happens with self.<lock_field> held on every path, and the lock is never left held when a
+    method ends - normally or by an exception (whatever the syntactic form: `with`, or acquire()/release() with try/finally)"""
+    c = ctx.cls(class_qual)
+    short = class_qual.split(".")[-1]
+    for mname, m in sorted(c.methods.items()):
+        if mname in skip:
+            continue
+        uses = [n for n in A.walk(m.node) if isinstance(n, ast.Attribute) and n.attr == table_field and K.self_attr(n)]
+        g, must, may, effect = lock_state(ctx, m, lock_field)
+        unlocked = []
+        for u in uses:
+            for n in g.live:
+                if n.ast is not None and n.kind in ("stmt", "test", "for") and A.contains(n.ast, u) and not must.get(n.id):
+                    unlocked.append(n)
+        rep.ob(rule, "%s.%s: the table is touched only under the collection's lock" % (short, mname), bool(uses) and not unlocked,
+               "%d access(es), the lock is held on every path reaching them" % len(uses) if uses and not unlocked else
+               "self.%s is accessed without self.%s held at %s" % (table_field, lock_field, ctx.loc(unlocked[0].ast) if unlocked else m.loc),
+               m.loc, kind="site")
+        leaks = [x for x in (g.exit, g.excexit) if may.get(x.id)]
+        wit = None
+        if leaks:
+            acq = [n for n in g.live if effect(n) is True]
+            rel = {n.id for n in g.live if effect(n) is False}
+            for a_ in acq:
+                for t, l in a_.succ:
+                    if l == "exc":
+                        continue
+                    p = Q.find_path_ef([t], lambda x: x in leaks, lambda a, b, l2: b.id not in rel, skip_first=False)
+                    if p is not None and t.id not in rel:
+                        wit = [a_] + p
+                        break
+                if wit:
+                    break
+        rep.ob(rule, "%s.%s: the lock is released on every exit, exceptional ones included" % (short, mname), not leaks,
+               "no path leaves the method with the lock held" if not leaks else
+               "a path leaves %s with self.%s still held (%s): the next operation on this collection - from any thread, e.g. "
+               "clear() when the connection closes - blocks for ever" % (
+                   mname, lock_field, "an exception between acquire() and release()" if g.excexit in leaks else "a normal exit"),
+               m.loc, witness=ctx.path(wit) if wit else None)
